@@ -27,7 +27,7 @@ ASSUMPTIONS = ['operators whose third-party dependency is not installed are outs
 REQUIRED = ['entries-judged', 'binary:left-only-empty', 'binary:right-only-empty', 'binary:both-empty', 'reference-model-used',
             'generic-rule-used', 'explicit-expectation-used']
 EXHAUSTIVE = {'quick': True, 'thorough': True}
-SHAPES = ['lists', 'tuples', 'four-fields', 'generator', 'none-keys', 'chunked-sorts', 'method-form']
+SHAPES = ['lists', 'tuples', 'four-fields', 'generator', 'none-keys', 'chunked-sorts', 'method-form', 'blank-row']
 
 H3 = ('f0', 'f1', 'f2')
 
@@ -67,6 +67,8 @@ def cases(ctx):
             for shape in SHAPES:
                 if shape == 'none-keys' and not (e.arity == 2 and e.second in ('join', 'joinrev')):
                     continue
+                if shape == 'blank-row' and not (e.arity == 2 and len(sub) == 1 and (e.ragged or e.group == 'setops') and e.kind in ('view', 'multi')):
+                    continue        # a completely empty row (a blank line) on the side that has rows, for the operators that take ragged rows
                 yield {'op': e.name, 'empty': sub, 'shape': shape}
 
 
@@ -89,6 +91,10 @@ def _inputs(e, case):
         a[1][0] = None
         a[3][0] = None
         b[1][b[0].index('f0')] = None
+    if case['shape'] == 'blank-row':
+        a.insert(2, [])
+        if b is not None:
+            b.insert(1, [])
     if e.name.endswith('-presorted'):
         # the precondition of presorted=True: rows in (whole-row, hence also f0) order
         a = a[:1] + sorted(a[1:], key=lambda r: util.model_key(tuple(r)))
@@ -115,6 +121,10 @@ def _ref_binary(name, a, b):
     for suffix in ('-presorted', '-keypos'):
         if name.endswith(suffix):
             name = name[:-len(suffix)]
+    if name.endswith('-missing') and name[:-len('-missing')] in ('leftjoin', 'rightjoin', 'lookupjoin', 'hashleftjoin', 'hashrightjoin', 'hashlookupjoin'):
+        base = name[:-len('-missing')]
+        h, r = oracles.ref_join(base[4:] if base.startswith('hash') else base, a, b, 'f0', 'f0', missing='M')
+        return h, r, False
     if name == 'hashrightjoin-lrkey-missing':
         h, r = oracles.ref_join('rightjoin', a, b, 'f0', 'f0', missing='M')
         return h, r, False
